@@ -504,7 +504,7 @@ EXC_ALLOW = {'runtime_error', 'invalid_argument', 'out_of_range', 'logic_error',
 STD_MAP = {
     'size_t': 'size_t', 'memcpy': 'memcpy', 'memset': 'memset', 'memcmp': 'memcmp', 'strncpy': 'strncpy', 'abs': 'abs',
     'uint32_t': 'uint32_t', 'uint64_t': 'uint64_t', 'uint16_t': 'uint16_t', 'uint8_t': 'uint8_t',
-    'int32_t': 'int32_t', 'swap': 'OP2_SWAP', 'min': 'OP2_MIN',
+    'int32_t': 'int32_t', 'swap': 'OP2_SWAP', 'min': 'OP2_MIN', 'move': 'OP2_IDENTITY',      # std::move(x) as a cast: views are moved by value (the 3-argument algorithm does not fit the macro: build break)
 }
 CAST_KW = {'static_cast', 'reinterpret_cast', 'const_cast'}
 LOOP_KW = {'for', 'while', 'do'}
